@@ -32,7 +32,7 @@ def histories(rng, tier):
         states.append(("raw", n, rand_small_state(rng, n)))
         for st in states:
             for c in COUNTS:
-                for _ in range(2 if tier == "quick" else 12):
+                for _ in range(2 if tier == "quick" else 40):
                     acts = [st, ("dump",)]
                     if rng.random() < 0.2 and n:
                         acts.insert(1, ("apply", ("h", rng.randrange(1, 1 << n))))
@@ -71,7 +71,7 @@ def soak(run, binary, rng, tier):
     not a multiple of the number of possible outcomes): skewed sparse states, many draws, statement checked on the
     implementation's histograms directly"""
     hs = []
-    for _ in range(60 if tier == "quick" else 1500):
+    for _ in range(60 if tier == "quick" else 4000):
         n = rng.choice([1, 2, 3, 4])
         N = 1 << n
         k = rng.choice([2, 2, 3])
@@ -115,6 +115,6 @@ if __name__ == "__main__":
     generic.finish(run, PROP, au, cs, n, dis,
                    "n = 0..6, states from sparse (1, 2, 3 non-zero cells with exact zeros through the raw-buffer hook) to dense, shot counts "
                    "{0,1,2,3,7,10,101,2048,10^6}, several draws each; the scaled normal draws are recorded by the hook and replayed in the "
-                   "model, histograms compared exactly; plus a soak of 6000 (150000) draws on skewed sparse states (one dominant outcome, one or two "
+                   "model, histograms compared exactly; plus a soak of 6000 (400000) draws on skewed sparse states (one dominant outcome, one or two "
                    "rare ones, 1..250 shots) checked against the statement directly, for the rare rounding-correction events",
                    assumptions=["the Gaussian draws are taken from the implementation (recording hook) and fed to the model"])
